@@ -13,6 +13,7 @@ import (
 	"strings"
 	"time"
 
+	"github.com/nuetzliches/hookaido/internal/app"
 	"github.com/nuetzliches/hookaido/internal/queue"
 )
 
@@ -47,6 +48,9 @@ type jcfg struct {
 	PressureItems int    `json:"pressureItems"`
 	PressureRaw   int    `json:"pressureRaw"` // explicit limit handed to the store (0 = default)
 	Backend       string `json:"backend"`
+	// Wired: the store is built from configuration TEXT through the real parser, compiler and run()'s newQueueStore
+	// (app.VerifNewQueueStore) instead of from store options
+	Wired bool `json:"wired,omitempty"`
 }
 
 type jfilter struct {
@@ -168,6 +172,9 @@ type jhead struct {
 	Seed  uint64 `json:"seed"`
 	Cfg   jcfg   `json:"cfg"`
 	Init  []jmsg `json:"init"`
+	// Compiled: for a wired store, the limits and retention settings the compiler produced from the text (what run() hands
+	// to the store)
+	Compiled *jcfg `json:"compiled,omitempty"`
 }
 
 func ns(t time.Time) int64 {
@@ -220,6 +227,8 @@ type backend struct {
 	path  string
 	mem   *queue.MemoryStore
 	sql   *queue.SQLiteStore
+	// what the compiler made of the wired configuration text
+	compiled *jcfg
 }
 
 func (b *backend) store() qstore {
@@ -236,8 +245,58 @@ func dropPolicy(c jcfg) string {
 	return "reject"
 }
 
+// the configuration text that says what c says
+func wiredConfigText(c jcfg) string {
+	dur := func(ns int64) string {
+		if ns <= 0 {
+			return "off"
+		}
+		return time.Duration(ns).String()
+	}
+	var t strings.Builder
+	t.WriteString("pull_api {\n  auth token raw:t\n}\n")
+	fmt.Fprintf(&t, "queue_limits {\n  max_depth %d\n  drop_policy %s\n}\n", c.MaxDepth, dropPolicy(c))
+	fmt.Fprintf(&t, "queue_retention {\n  max_age %s\n  prune_interval %s\n}\n", dur(c.Retention), dur(c.PruneInterval))
+	fmt.Fprintf(&t, "delivered_retention {\n  max_age %s\n}\n", dur(c.DeliveredRet))
+	fmt.Fprintf(&t, "dlq_retention {\n  max_age %s\n  max_depth %d\n}\n", dur(c.DlqRet), c.DlqDepth)
+	backend := "sqlite"
+	if c.Backend == "memory" {
+		backend = "memory"
+	}
+	fmt.Fprintf(&t, "/r {\n  queue { backend %s }\n  pull { path /pull/r }\n}\n", backend)
+	return t.String()
+}
+
+func (b *backend) openWired() error {
+	compiled, err := compileText(wiredConfigText(b.cfg))
+	if err != nil {
+		return fmt.Errorf("wired store configuration: %w", err)
+	}
+	b.compiled = &jcfg{MaxDepth: compiled.QueueLimits.MaxDepth, DropOldest: compiled.QueueLimits.DropPolicy == "drop_oldest",
+		Retention: int64(compiled.QueueRetention.MaxAge), PruneInterval: int64(compiled.QueueRetention.PruneInterval),
+		DeliveredRet: int64(compiled.DeliveredRetention.MaxAge), DlqRet: int64(compiled.DLQRetention.MaxAge), DlqDepth: compiled.DLQRetention.MaxDepth}
+	st, _, err := app.VerifNewQueueStore(compiled, b.path)
+	if err != nil {
+		return err
+	}
+	switch s := st.(type) {
+	case *queue.MemoryStore:
+		s.VerifSetNow(b.clock.Now)
+		b.mem = s
+	case *queue.SQLiteStore:
+		s.VerifSetNow(b.clock.Now)
+		b.sql = s
+	default:
+		return fmt.Errorf("wired store has unexpected type %T", st)
+	}
+	return nil
+}
+
 func (b *backend) open() error {
 	c := b.cfg
+	if c.Wired {
+		return b.openWired()
+	}
 	if c.Backend == "memory" {
 		opts := []queue.MemoryOption{
 			queue.WithNowFunc(b.clock.Now),
@@ -607,6 +666,14 @@ func (g *qgen) genCfg(backend string) jcfg {
 		c.DeliveredRet = int64(300e9)
 		c.PressureRaw = pick(r, []int{1, 2})
 		c.PruneInterval, c.Retention, c.DlqRet, c.DlqDepth = 0, 0, 0, 0
+	}
+	// half of the stores are built from configuration text through the real compiler and run()'s wiring
+	c.Wired = c.PressureRaw == 0 && r.chance(50)
+	if c.Wired {
+		// combinations the configuration language refuses (e.g. retention without a prune interval) exist only as options
+		if _, err := compileText(wiredConfigText(c)); err != nil {
+			c.Wired = false
+		}
 	}
 	c.PressureItems = effectivePressure(c)
 	return c
@@ -1106,7 +1173,7 @@ func (q *qrun) runTrace(traceNo int, seed uint64) error {
 			os.Remove(b.path + "-shm")
 		}
 	}()
-	if err := q.emit(jhead{K: "cfg", Trace: traceNo, Seed: seed, Cfg: g.cfg, Init: []jmsg{}}); err != nil {
+	if err := q.emit(jhead{K: "cfg", Trace: traceNo, Seed: seed, Cfg: g.cfg, Init: []jmsg{}, Compiled: b.compiled}); err != nil {
 		return err
 	}
 	nops := q.ops
